@@ -220,7 +220,7 @@ def run(ctx, anchors=None):
              "(WITNESS_V0 if any other input has a witness), so a legacy input of a mixed transaction is checked under BIP143 rules")
     legacy = [n for n in sv_asg if _X(cf, n["rhs"]).endswith("BASE")]
     lg = [_X(cf, c) for n in legacy for (c, t) in S.ast_guards(cf, n) if not t]
-    ctx.inst(bool(legacy) and any("wstack.size() > 0" in x for x in lg), "R03.7", "legacy-branch-is-BASE", cf.loc(legacy[0]) if legacy else cf.loc(), "an input without witness is executed as SigVersion::BASE")
+    ctx.inst(bool(legacy) and any(("wstack.size() > 0" in x) or ("scriptWitness.stack.size() > 0" in x) for x in lg), "R03.7", "legacy-branch-is-BASE", cf.loc(legacy[0]) if legacy else cf.loc(), "an input without witness is executed as SigVersion::BASE")
     # ---- R03.4 (shared)
     from .. import report
     from . import c01
@@ -240,7 +240,7 @@ def run(ctx, anchors=None):
                     continue
                 ndef += 1
                 ctx.site()
-                cj = [astq.estr(c) for c in S.conjuncts(n["rhs"])]
+                cj = [astq.estr(c) for c in S.conjuncts(astq.expand(f, n["rhs"]))]
                 has_base = any("sigversion == SigVersion::BASE" in c for c in cj)
                 has_flag = any("SCRIPT_VERIFY_P2SH" in c and "flags" in c and not c.startswith("!") for c in cj)
                 ctx.inst(has_base and has_flag, "R03.5", "p2sh-only-for-BASE-with-flag@%s" % f.name, f.loc(n),
